@@ -130,6 +130,14 @@ def random_rt(ctx, nplan, calm=False):
     gaps = [[amount(rng, F, zero), rng.choice([0] * 6 + [1, 2])] for _ in range(nplan)]
     rt = {"F": F, "strict": strict, "t0": rng.choice([0, 0, 0, 5, 3]), "w0": rng.randint(0, 400),
           "sleep": sl, "work": work, "gaps": gaps}
+    if rng.random() < 0.12:
+        # factors of a millisecond and less (on the 15-microsecond grain): lags of a few factors are a few milliseconds
+        Fs = rng.choice([16, 64, 64, 256])
+        z = 14 if (calm or (strict and rng.random() < 0.6)) else 4
+        return {"den": 65536, "minadv": 1, "F": Fs, "strict": strict, "t0": rng.choice([0, 0, 5]), "w0": rng.randint(0, 400000),
+                "sleep": [rng.choice([0, 0, 0, -1, 1, Fs, Fs + 1, 2 * Fs + 3]) for _ in range(rng.choice([1, 7]))],
+                "work": [[amount(rng, Fs, z), rng.choice([0] * 12 + [1, 2])] for _ in range(rng.choice([1, 5, 11]))],
+                "gaps": [[amount(rng, Fs, z), rng.choice([0] * 6 + [1, 2])] for _ in range(nplan)]}
     if rng.random() < 0.35:
         # the same schedule on a 15-microsecond grain: sleeps return, and bodies end, a few units (tens of microseconds)
         # off the due instant -- an occurrence is not to be processed even one unit early
